@@ -31,6 +31,13 @@ add("F6", B, "C01.bounds|checked-unwrap|compiler::bytecodegen::ByteCodeGenerator
 add("F5", B, "C01.bounds|bump|next_global_offset", "WASM global region 256..512 is never bounded: 150 globals overlap the state-exchange and allocation areas (dsp returns 126 instead of 225)")
 add("F22", B, "C01.bounds|bump|state_temp_base", "WASM state-exchange region 512..1024 (64 words) is never bounded: 70 functions using `self` push GetState scratch slots into the allocation area; dsp returns 1,3,5 instead of 300 (findings/repro/F22_state_temp_overflow.mmm)")
 
+# ---- stated beliefs (C03.belief; the same sites are cited by C04.belief) -------------------------------
+add("F7", ["C03"], 'C03.belief|site|compiler::mirgen::Context::try_make_delay|unreachable|unreachable!("unbounded delay access, should be an error at typing stage.")', "delay(n, x, t) with a non-literal n: unreachable! in mirgen on both back ends (the type checker accepts it)")
+add("F8", ["C03"], 'C03.belief|site|compiler::typing::InferContext::infer_type|unimplemented|unimplemented!("Assignment to array is not implemented yet.")', "`a[0] = 3.0`: unimplemented! inside the type checker")
+add("F8", ["C03"], 'C03.belief|site|compiler::mirgen::Context::eval_destination_ptr|unimplemented|unimplemented!("Assignment to array is not implemented yet.")', "`a[0] = 3.0`: second abort for the same construct in mirgen (shadowed by the type checker's)")
+add("F8", ["C03"], 'C03.belief|site|compiler::mirgen::Context::eval_expr_as_address|unimplemented|unimplemented!("Array element assignment is not implemented yet.")', "`a[0] = 3.0`: third abort for the same construct in mirgen")
+add("F23", ["C03"], "C03.belief|site|<mir::StateType as std::convert::From<interner::TypeNodeId>>::from|todo|todo!()", "`self` in a function whose return type is a string, a sum type, ...: todo!() in StateType::from panics the compiler on both back ends (findings/repro/F23_*.mmm)")
+
 
 def main():
     extra = os.path.join(HERE, "tools", "findings_more.py")
